@@ -5,7 +5,8 @@ From Coq Require Import List Arith Bool NArith.
 From Conductor Require Import Model.Loader Model.Planner Model.Exec Model.RunCase
   Proofs.ExecInv Proofs.ExecTheorems Proofs.ExecMain Proofs.LoaderProofs Proofs.Compose
   Model.Reaper Proofs.ReaperProofs.
-From Conductor Require Import Gen.Generated Proofs.GenTie.
+From Conductor Require Import Gen.Generated Proofs.GenTie Proofs.ExecNested.
+From Conductor Require Import Proofs.WfPlanDec.
 Import ListNotations.
 
 (* progress: every iteration of the main loop launches, skips or completes an operation, so the
@@ -126,7 +127,30 @@ Theorem C09_main_loop_is_the_sources : forall jobs s, gate_open jobs s = false -
 Proof. exact loop_tie. Qed.
 Print Assumptions C09_main_loop_is_the_sources.
 
+(* The model runs ONE flat loop; Executor.run_plan is two nested loops with break / continue / an early
+   return.  [Run] (Proofs/ExecNested.v) is the big-step semantics of that nested text, one
+   constructor per way through the loop bodies; from every state in which the loop has not been
+   left, the nested loops end in s' exactly when the flat loop does -- so every theorem about
+   [final_state] / [run_plan] is a theorem about the nested loops.  In particular the busy
+   `continue` (nothing in flight, gate closed) cannot spin. *)
+Theorem C09_nested_loops_are_the_flat_loop : forall p jobs stop orc s s',
+  stopped s = false -> (Run p jobs stop orc s s' <-> exists k, xiter p jobs stop orc k s = Some s').
+Proof. exact nested_is_flat. Qed.
+Print Assumptions C09_nested_loops_are_the_flat_loop.
+
+(* ... and the three tests of the nested loops are the ones TRANSLATED from the working tree *)
+Theorem C09_nested_tests_are_the_sources : forall jobs s,
+  loop_cond s = gen_loop_goes_on (has_ops s) (inflight s) /\
+  gate_open jobs s = gen_gate_open (has_ops s) (has_par s) (runpar s) (inflight s) jobs /\
+  Nat.eqb (inflight s) 0 = gen_skip_wait (inflight s).
+Proof. exact nested_tie. Qed.
+Print Assumptions C09_nested_tests_are_the_sources.
+
 Example C09_nonvacuous :
   run_plan ex_plan 2 false ex_orc 7 0 =
   Some [EStart 0 (Some 0); EStart 1 (Some 1); EFinish 1 0; EFinish 0 0; EStart 2 None; EFinish 2 0; EKill []; EDone].
 Proof. vm_compute. reflexivity. Qed.
+
+(* the example plan meets the hypothesis of the theorems above *)
+Example C09_example_plan_is_wf : wf_plan ex_plan.
+Proof. apply wf_planb_spec. vm_compute. reflexivity. Qed.
